@@ -93,6 +93,24 @@ class Obj(HeapRef):
         return "<%s %s#%d>" % (self.clsname(), self.name, self.oid)
 
 
+class EntryRef(HeapRef):
+    """alias of the mutable list stored under `key` in dict object `d` (slot lists of RefCountingColl):
+    reads and in-place writes go to the table entry itself"""
+
+    def __init__(self, d, key):
+        self.d = d
+        self.key = key
+
+    def oid_term(self):
+        raise Unsupported("identity of a table slot")
+
+    def as_val(self):
+        raise Unsupported("a table slot used as a value outside its table")
+
+    def __repr__(self):
+        return "EntryRef(%s[%s])" % (self.d.name, self.key)
+
+
 class ExcObj(Obj):
     """an exception instance"""
 
@@ -299,6 +317,10 @@ class Executor(object):
             return None
         if sort == "dict":
             return Obj(dict, name, "dict")
+        if sort == "dict:slot":
+            o = Obj(dict, name, "dict")
+            o.valkind = "slot"
+            return o
         if sort == "any":
             return SVal(fresh(name, Val))
         if sort.startswith("obj:"):
@@ -565,6 +587,11 @@ class Executor(object):
             raise CheckerError("modifies entry %r does not denote an object" % m)
         if parts[-1] == "*":
             return {(v.oid, f) for f in self.all_fields(v)}
+        tgt = self.heap_get(st, v, parts[-1])
+        if isinstance(tgt, Obj) and tgt.kind == "dict":
+            return {(tgt.oid, "map"), (tgt.oid, "has")}      # a path to a container denotes its contents
+        if isinstance(tgt, Obj) and tgt.kind == "joinlist":
+            return {(tgt.oid, "joined"), (tgt.oid, "n")}
         return {(v.oid, parts[-1])}
 
     def all_fields(self, obj):
@@ -1305,6 +1332,8 @@ class Executor(object):
             if isinstance(a, SVal) or isinstance(b, SVal):
                 if isinstance(e.op, (ast.BitOr, ast.BitAnd)):
                     a, b = self.narrow(st1, a, "bool", e, "operand"), self.narrow(st1, b, "bool", e, "operand")
+                elif isinstance(e.op, (ast.Sub, ast.Mult, ast.FloorDiv, ast.Mod)):
+                    a, b = self.narrow(st1, a, "int", e, "operand"), self.narrow(st1, b, "int", e, "operand")
                 elif isinstance(e.op, ast.Add):
                     other = b if isinstance(a, SVal) else a
                     k = "str" if ops.is_strlike(other) else "bytes" if ops.is_byteslike(other) else \
@@ -1343,7 +1372,12 @@ class Executor(object):
                     if isinstance(op, ast.NotIn):
                         outs = [(s, v if isinstance(v, Raised) else self.negate(v)) for s, v in outs]
                 else:
-                    outs = self.with_errs(st1, ops.compare(op, lv, rv), e)
+                    if isinstance(op, (ast.Lt, ast.LtE, ast.Gt, ast.GtE)) and (isinstance(lv, SVal) or isinstance(rv, SVal)):
+                        lv2 = self.narrow(st1, lv, "int", e, "comparison operand")
+                        rv = self.narrow(st1, rv, "int", e, "comparison operand")
+                    else:
+                        lv2 = lv
+                    outs = self.with_errs(st1, ops.compare(op, lv2, rv), e)
                 for st2, v in outs:
                     if isinstance(v, Raised) or len(rest) == 1:
                         yield st2, v
